@@ -23,7 +23,7 @@
 From Coq Require Import QArith Qcanon List String Bool.
 Import ListNotations.
 From S2 Require Import Base.Num Base.Arr Model.Expr Model.Struct Model.Rates Model.Solvers Spec.RatesSpec
-     Proofs.NumQc Proofs.BuildProofs Proofs.CopiesProofs Proofs.AggregateProofs Proofs.InvarianceProofs Proofs.Assembly Proofs.SameKeys Proofs.AgeAssembly Proofs.TimeShift Proofs.Scaling Proofs.AggregateRates Proofs.AggregateModel Proofs.AggregateTotals Proofs.AggregateAll Proofs.RatesBridge Proofs.AggregateFinal Model.Program Props.Examples.
+     Proofs.NumQc Proofs.BuildProofs Proofs.CopiesProofs Proofs.AggregateProofs Proofs.InvarianceProofs Proofs.Assembly Proofs.SameKeys Proofs.AgeAssembly Proofs.TimeShift Proofs.Scaling Proofs.AggregateRates Proofs.AggregateModel Proofs.AggregateTotals Proofs.AggregateAll Proofs.RatesBridge Proofs.AggregateFinal Proofs.AggregateTraj Proofs.AgeZero Proofs.AggregateClosed Proofs.FoiProofs Proofs.FoiAggregate Proofs.FoiBridge Proofs.FoiModel Model.Program Props.Examples.
 
 (* the copies of an unadjusted stratification carry the parent's weight, or the parent's weight
    divided by the number of strata for entry flows, destination-only stratified transitions
@@ -114,7 +114,8 @@ Print Assumptions C03_assembly_built.
 
 (* whole models WITHOUT INFECTION FLOWS: every model the build API produces (with distinct compartment names) whose flows
    are transition, death, importation, absolute, crude-birth and replacement-birth flows with rates that do not mention
-   the state; every ordinary, partial or age stratification without flow adjustments; every parameter set, time and state
+   the state; every ordinary, partial or age stratification without flow adjustments (an accepted age stratification has exactly
+   one stratum "0": Proofs/AgeZero.v); every parameter set, time and state
    x' of the stratified model.  ni_rate is the documented law of each kind (C01): weight x source, weight x total
    population, weight x total death rate, or the weight itself.  Summed over the copies of a compartment, the net rates
    of the stratified model at x' are that compartment's net rate in the unstratified model at the aggregated state *)
@@ -124,14 +125,12 @@ Theorem C03_noninfection_models :
     stratify_with m s0 = Ok m' ->
     NoDup (s_strata (normalise_strat s0)) -> s_strata (normalise_strat s0) <> [] ->
     is_strain (s_kind (normalise_strat s0)) = false -> s_fadj (normalise_strat s0) = [] ->
-    (is_age (s_kind (normalise_strat s0)) = true ->
-     List.length (filter (fun st => String.eqb st "0") (s_strata (normalise_strat s0))) = 1%nat) ->
     (forall f, In f (m_flows m) -> ni_flow f) ->
     forall (p : env O) (t : F O) (x' : list (F O)), List.length x' = List.length (m_comps m') ->
     forall c, In c (m_comps m) ->
       fsum O (map (fun c' => net_rate O (ni_rate O p t m' x') (m_flows m') c') (group (normalise_strat s0) c))
       = net_rate O (ni_rate O p t m (aggx O (normalise_strat s0) (m_comps m) x')) (m_flows m) c.
-Proof. intros O T. exact (noninfection_model_aggregates O T). Qed.
+Proof. intros O T. exact (noninfection_model_aggregates_closed O T). Qed.
 Print Assumptions C03_noninfection_models.
 
 (* ... and in terms of the functions the runner executes (get_comp_rates of the two models, with their own index
@@ -146,8 +145,6 @@ Theorem C03_comp_rates_aggregate :
     prepare_structural m = Ok b -> prepare_structural m' = Ok b' ->
     NoDup (s_strata (normalise_strat s0)) -> s_strata (normalise_strat s0) <> [] ->
     is_strain (s_kind (normalise_strat s0)) = false -> s_fadj (normalise_strat s0) = [] ->
-    (is_age (s_kind (normalise_strat s0)) = true ->
-     List.length (filter (fun st => String.eqb st "0") (s_strata (normalise_strat s0))) = 1%nat) ->
     (forall f, In f (m_flows m) -> ni_flow f) ->
     forall (p : env O) (t : F O) (x' : list (F O)), List.length x' = List.length (m_comps m') ->
     Forall (fun v => fle O T (f0 O) v) x' ->
@@ -155,8 +152,86 @@ Theorem C03_comp_rates_aggregate :
       fsum O (map (fun c' => nth (comp_index (m_comps m') c') (get_comp_rates O m' b' p t x') (f0 O))
                   (group (normalise_strat s0) (nth i (m_comps m) dflt)))
       = nth i (get_comp_rates O m b p t (aggx O (normalise_strat s0) (m_comps m) x')) (f0 O).
-Proof. intros O T. exact (stratified_comp_rates_aggregate O T). Qed.
+Proof. intros O T. exact (stratified_comp_rates_aggregate_closed O T). Qed.
 Print Assumptions C03_comp_rates_aggregate.
+
+(* ... and along whole Euler runs (any step, start time and number of steps): as long as the rows of the stratified run
+   stay non-negative, every row summed over the copies of each compartment is the row of the unstratified run started
+   from the aggregated initial state.  copy_positions lists, for each compartment of the unstratified model, the positions
+   of its copies in the stratified one. *)
+Theorem C03_euler_rows_aggregate :
+  forall (O : NumOps) (T : NumTheory O) t0 t1 h comps inf ops (m : model) (s0 : strat) (m' : model) (b b' : backend),
+    build_ok t0 t1 h comps inf ops = Some m -> NoDup (m_comps m) ->
+    stratify_with m s0 = Ok m' ->
+    prepare_structural m = Ok b -> prepare_structural m' = Ok b' ->
+    NoDup (s_strata (normalise_strat s0)) -> s_strata (normalise_strat s0) <> [] ->
+    is_strain (s_kind (normalise_strat s0)) = false -> s_fadj (normalise_strat s0) = [] ->
+    (forall f, In f (m_flows m) -> ni_flow f) ->
+    forall (p : env O) (hs tstart : F O) (y0' : list (F O)) (k : nat),
+      List.length y0' = List.length (m_comps m') ->
+      Forall (Forall (fun v => fle O T (f0 O) v))
+             (solve_fixed O (euler_step O) (fun t y => get_comp_rates O m' b' p t y) tstart hs y0' k) ->
+      map (agg O (copy_positions m s0 m')) (solve_fixed O (euler_step O) (fun t y => get_comp_rates O m' b' p t y) tstart hs y0' k)
+      = solve_fixed O (euler_step O) (fun t y => get_comp_rates O m b p t y) tstart hs (agg O (copy_positions m s0 m') y0') k.
+Proof. intros O T. exact (stratified_euler_rows_aggregate_closed O T). Qed.
+Print Assumptions C03_euler_rows_aggregate.
+
+(* the force of infection (C05's definition foi_spec: sum_j M[i,j] P_j(s) or sum_j M[i,j] P_j(s)/N_j) reads the state only
+   through group totals: if groups lists for every compartment of the unstratified layout the positions of its copies
+   (disjoint), the copies share their compartment's infectiousness, and the categories and the strain's infectious
+   index list of the stratified layout are the unions of the groups of the unstratified ones, then the force of
+   infection at a state x' of the stratified layout is the force of infection at the aggregated state - any mixing matrix,
+   any number of categories, density and frequency.
+   (definition level; C03_force_of_infection_aggregates below identifies the index lists of built models with these unions) *)
+Theorem C03_foi_reads_group_totals :
+  forall (O : NumOps) (T : NumTheory O) (groups : list (list nat)),
+    (forall c1 c2 q, In q (G groups c1) -> In q (G groups c2) -> c1 = c2) ->
+    forall (x' infness' infness : list (F O)),
+    (forall c q, (c < List.length groups)%nat -> In q (G groups c) ->
+                 get_clamp (f0 O) infness' q = get_clamp (f0 O) infness c) ->
+    forall (freq : bool) (mix : list (list (F O))) (cats : list (list nat)) (inf_idx : list nat) (i : nat),
+    (forall cat c, In cat cats -> In c cat -> (c < List.length groups)%nat) ->
+    foi_spec O freq mix x' infness' (map (lift groups) cats) (lift groups inf_idx) i
+    = foi_spec O freq mix (agg O groups x') infness cats inf_idx i.
+Proof. intros O T. exact (foi_spec_aggregates O T). Qed.
+Print Assumptions C03_foi_reads_group_totals.
+
+(* ... and on built models: for every model the build API produces (distinct compartments) and every stratification it
+   accepts that is not a strain stratification and has no mixing matrix and no infectiousness adjustments, the force of
+   infection of the stratified model - C05's definition over ITS categories, ITS strain's infectious compartments and
+   ITS infectiousness vector, which is what C05_multiplier shows the runner computes - at any state x' is the force of
+   infection of the unstratified model at the aggregated state; the mixing matrix, the strains and the categories are
+   those of the unstratified model.  (The category populations N_j and the infectious populations P_j(s) aggregate one
+   by one: Proofs/FoiModel.v category_population_aggregates, infectious_population_aggregates.) *)
+Theorem C03_force_of_infection_aggregates :
+  forall (O : NumOps) (T : NumTheory O) t0 t1 h comps inf ops (m : model) (s0 : strat) (m' : model),
+    build_ok t0 t1 h comps inf ops = Some m -> NoDup (m_comps m) ->
+    stratify_with m s0 = Ok m' ->
+    NoDup (s_strata (normalise_strat s0)) ->
+    is_strain (s_kind (normalise_strat s0)) = false -> s_mix (normalise_strat s0) = None -> s_iadj (normalise_strat s0) = [] ->
+    forall (p : env O) (x' : list (F O)) (freq : bool) (mix : list (list (F O))) (strain : string) (i : nat),
+      (foi_spec O freq mix x' (compartment_infectiousness O m' p) (map (cat_members m') (m_mixcats m'))
+                (strain_infectious_comps m' strain) i
+       = foi_spec O freq mix (agg O (copy_positions m s0 m') x') (compartment_infectiousness O m p)
+                  (map (cat_members m) (m_mixcats m)) (strain_infectious_comps m strain) i)
+      /\ (forall t x, mixing_matrix O m' p t x = mixing_matrix O m p t x)
+      /\ m_strains m' = m_strains m /\ m_mixcats m' = m_mixcats m.
+Proof.
+  intros O T t0 t1 h comps inf ops m s0 m' Hb Hnd H Hst Hns Hmix Hia p x' freq mix strain i.
+  exact (conj (force_of_infection_aggregates_built O T t0 t1 h comps inf ops m s0 m' Hb Hnd H Hst Hns Hmix Hia p x' freq mix strain i)
+              (conj (fun t x => mixing_matrix_kept O m s0 m' H Hmix p t x) (strains_kept m s0 m' H Hns Hmix))).
+Qed.
+Print Assumptions C03_force_of_infection_aggregates.
+
+(* non-vacuity: S, I, R with I split in two copies (positions 1 and 2), the second half as infectious in both layouts *)
+Example C03_foi_nonvacuous :
+  let groups := [[0]; [1; 2]; [3]]%nat in
+  let x' := map Q2Qc [70; 10; 20; 5]%Q in
+  foi_spec QcOps true [[Q2Qc 2]] x' (map Q2Qc [1; (1#2); (1#2); 1]%Q) (map (lift groups) [[0; 1; 2]%nat]) (lift groups [1%nat]) 0
+  = foi_spec QcOps true [[Q2Qc 2]] (agg QcOps groups x') (map Q2Qc [1; (1#2); 1]%Q) [[0; 1; 2]%nat] [1%nat] 0
+  /\ this (foi_spec QcOps true [[Q2Qc 2]] x' (map Q2Qc [1; (1#2); (1#2); 1]%Q) (map (lift groups) [[0; 1; 2]%nat]) (lift groups [1%nat]) 0)
+     = (2#7)%Q.
+Proof. vm_compute. split; reflexivity. Qed.
 
 (* non-vacuity: in the example model the two copies of the replacement-birth flow carry weight 1/2
    each (entry flow into a newly stratified destination) and the universal-death copies keep 1/64 *)
